@@ -346,9 +346,9 @@ Proof.
   rewrite Hp. now rewrite removelast_last.
 Qed.
 
-Theorem loaded_object_keeps_its_folder m member mime rs os p mtv :
-  In (p, mtv) m -> classify m p = IsObject ->
-  exists d, In d (o_kids (t_root (load_m m member mime rs os))) /\ objfolder d = p /\ o_mt d = mtv.
+Theorem loaded_object_keeps_its_folder foreign m member mime rs os p mtv :
+  In (p, mtv) m -> classify foreign m p = IsObject ->
+  exists d, In d (o_kids (t_root (load_m foreign m member mime rs os))) /\ objfolder d = p /\ o_mt d = mtv.
 Proof.
   intros Hin Hc. exists (ODoc mtv (cSLASHc :: removelast p) (os p) [] []). split; [|split; [|reflexivity]].
   - unfold load_m. cbn [t_root o_kids]. apply in_flat_map. exists (p, mtv). split; [exact Hin|]. cbn [fst snd]. rewrite Hc. now left.
@@ -358,14 +358,14 @@ Proof.
 Qed.
 
 (* load then save: the object is written back under the same folder, with the same media type *)
-Theorem object_survives_load_save m member mime rs os p mtv :
-  In (p, mtv) m -> classify m p = IsObject ->
-  In (p ++ s2l "content.xml") (names (fst (save_m (load_m m member mime rs os)))) /\
-  In (p ++ s2l "styles.xml") (names (fst (save_m (load_m m member mime rs os)))) /\
-  In (p, mtv) (snd (save_m (load_m m member mime rs os))).
+Theorem object_survives_load_save foreign m member mime rs os p mtv :
+  In (p, mtv) m -> classify foreign m p = IsObject ->
+  In (p ++ s2l "content.xml") (names (fst (save_m (load_m foreign m member mime rs os)))) /\
+  In (p ++ s2l "styles.xml") (names (fst (save_m (load_m foreign m member mime rs os)))) /\
+  In (p, mtv) (snd (save_m (load_m foreign m member mime rs os))).
 Proof.
-  intros Hin Hc. destruct (loaded_object_keeps_its_folder m member mime rs os p mtv Hin Hc) as (d & Hd & Hf & Hm).
-  destruct (object_where_its_reference_says (load_m m member mime rs os) d (emb_kid _ _ Hd)) as (A & B & C).
+  intros Hin Hc. destruct (loaded_object_keeps_its_folder foreign m member mime rs os p mtv Hin Hc) as (d & Hd & Hf & Hm).
+  destruct (object_where_its_reference_says (load_m foreign m member mime rs os) d (emb_kid _ _ Hd)) as (A & B & C).
   rewrite Hf, Hm in *. repeat split; [| |exact C].
   - apply (in_map e_name) in A. exact A.
   - apply (in_map e_name) in B. exact B.
@@ -373,16 +373,16 @@ Qed.
 
 (* every other member listed in the manifest travels byte-identically under its path and media type
    (document signatures excepted) *)
-Theorem extra_survives_load_save m member mime rs os p mtv :
-  In (p, mtv) m -> classify m p = IsExtra -> ends_slash p = false -> str_eqb p sSIG = false ->
-  In (mkE p false [] (DBytes (member p))) (fst (save_m (load_m m member mime rs os))) /\
-  In (p, mtv) (snd (save_m (load_m m member mime rs os))).
+Theorem extra_survives_load_save foreign m member mime rs os p mtv :
+  In (p, mtv) m -> classify foreign m p = IsExtra -> ends_slash p = false -> str_eqb p sSIG = false ->
+  In (mkE p false [] (DBytes (member p))) (fst (save_m (load_m foreign m member mime rs os))) /\
+  In (p, mtv) (snd (save_m (load_m foreign m member mime rs os))).
 Proof.
   intros Hin Hc Hs Hsig.
-  assert (Hx : In (p, mtv, Some (member p)) (t_extras (load_m m member mime rs os))).
+  assert (Hx : In (p, mtv, Some (member p)) (t_extras (load_m foreign m member mime rs os))).
   { unfold load_m. cbn [t_extras]. apply in_flat_map. exists (p, mtv). split; [exact Hin|]. cbn [fst snd]. rewrite Hc, Hs. now left. }
   unfold save_m. destruct (save_xml true [] (t_root _)) as [ex mx]. destruct (save_pics [] (t_root _)) as [ep mp]. cbn [fst snd].
-  set (xs := filter (fun x => negb (str_eqb (fst (fst x)) sSIG)) (t_extras (load_m m member mime rs os))).
+  set (xs := filter (fun x => negb (str_eqb (fst (fst x)) sSIG)) (t_extras (load_m foreign m member mime rs os))).
   assert (Hxs : In (p, mtv, Some (member p)) xs) by (apply filter_In; split; [exact Hx|cbn [fst]; rewrite Hsig; reflexivity]).
   split.
   - right. rewrite !in_app_iff. right. right. right. left.
@@ -390,3 +390,50 @@ Proof.
   - rewrite !in_app_iff. right. right. right.
     apply (in_map (fun x => (fst (fst x), snd (fst x)))) in Hxs. exact Hxs.
 Qed.
+
+(* embedded objects that are not OpenDocument documents (foreign: the content.xml of the folder has a root element of another
+   vocabulary - a formula written as plain MathML): the folder is not loaded as a sub-document and none of its files as a part
+   of one, so they are among the members carried over as they are (extra_survives_load_save) *)
+Lemma classify_object_not_foreign foreign m p : classify foreign m p = IsObject -> foreign p = false.
+Proof.
+  unfold classify. repeat match goal with |- (if ?b then _ else _) = _ -> _ => destruct b eqn:?; try discriminate end.
+  intros _. unfold is_object_folder in *. repeat match goal with H : _ && _ = true |- _ => apply andb_true_iff in H as [? ?] end.
+  now apply negb_true_iff.
+Qed.
+Lemma classify_part_not_foreign foreign m p : classify foreign m p = IsObjectPart -> foreign (fst (split_last_slash p [] [])) = false.
+Proof.
+  unfold classify. repeat match goal with |- (if ?b then _ else _) = _ -> _ => destruct b eqn:?; try discriminate end.
+  intros _. unfold is_object_part in *. destruct (split_last_slash p [] []) as [dir base]. cbn [fst].
+  repeat match goal with H : _ && _ = true |- _ => apply andb_true_iff in H as [? ?] end. now apply negb_true_iff.
+Qed.
+Lemma object_path_dispositions foreign m p : starts_with sOBJ p = true ->
+  classify foreign m p = IsObject \/ classify foreign m p = IsObjectPart \/ classify foreign m p = IsExtra.
+Proof.
+  intros H. unfold starts_with in H. destruct p as [|c p]; [discriminate|].
+  assert (Hs : sOBJ = 79 :: s2l "bject ") by reflexivity. rewrite Hs in H. cbn [strip_prefix] in H.
+  destruct (79 =? c) eqn:E; [|discriminate]. apply N.eqb_eq in E. subst c.
+  match goal with |- classify _ _ ?q = _ \/ _ =>
+    assert (Hc : classify foreign m q = if is_object_folder foreign m q then IsObject
+                                        else if is_object_part foreign m q then IsObjectPart else IsExtra) by reflexivity;
+    rewrite Hc; destruct (is_object_folder foreign m q); [now left|]; destruct (is_object_part foreign m q) end; [right; now left|right; now right].
+Qed.
+Theorem foreign_member_is_extra foreign m p : starts_with sOBJ p = true ->
+  foreign (fst (split_last_slash p [] [])) = true -> (ends_slash p = true -> foreign p = true) -> classify foreign m p = IsExtra.
+Proof.
+  intros Hs Hd Hf. destruct (object_path_dispositions foreign m p Hs) as [H|[H|H]]; [| |exact H].
+  - pose proof (classify_object_not_foreign _ _ _ H) as Hn. exfalso.
+    unfold classify in H. repeat match type of H with (if ?b then _ else _) = _ => destruct b eqn:?; try discriminate end.
+    unfold is_object_folder in *. repeat match goal with H : _ && _ = true |- _ => apply andb_true_iff in H as [? ?] end.
+    rewrite Hf in Hn by assumption. discriminate.
+  - apply classify_part_not_foreign in H. rewrite Hd in H. discriminate.
+Qed.
+
+(* a formula object as office suites write it *)
+Example foreign_formula_object :
+  let m := [(s2l "/", s2l "application/vnd.oasis.opendocument.text"); (s2l "content.xml", sTEXTXML);
+            (s2l "Object 1/content.xml", sTEXTXML); (s2l "Object 1/settings.xml", sTEXTXML); (s2l "Object 1/", s2l "application/vnd.oasis.opendocument.formula");
+            (s2l "Object 2/content.xml", sTEXTXML); (s2l "Object 2/", s2l "application/vnd.oasis.opendocument.chart")] in
+  let foreign := fun p => str_eqb p (s2l "Object 1/") in
+  map (fun e => classify foreign m (fst e)) m = [IsRootEntry; IsRootPart; IsExtra; IsExtra; IsExtra; IsObjectPart; IsObject] /\
+  fst (split_last_slash (s2l "Object 1/content.xml") [] []) = s2l "Object 1/".
+Proof. vm_compute. split; reflexivity. Qed.
